@@ -969,9 +969,32 @@ fn run_tree(r: &mut Runner, tree: &str, src: &str) {
     emit(&case, &o.obs, &oracle);
 }
 
+/// `X <hex text>`: one escape unit read by `EscapeUnit::from_str` (= `Lexer::escape_unit`); the observation
+/// is the unit (same notation as in trees), `esc-error` or `esc-none`, and is predicted by the model lexer
+fn run_escape_case(case: &str, text: &str) {
+    let obs = guarded(|| match EscapeUnit::from_str(text) {
+        Ok(u) => {
+            let (sx, _) = part(|s| s.escapes(std::slice::from_ref(&u)));
+            format!("esc {sx}")
+        }
+        Err(Some(e)) => {
+            exercise_error(&e);
+            "esc-error".to_string()
+        }
+        Err(None) => "esc-none".to_string(),
+    });
+    let oracle = if obs.starts_with("PANIC") { "FAIL:panic" } else { "-" };
+    emit(case, &obs, oracle);
+}
+
 fn run_case(r: &mut Runner, case: &str) {
     let case = case.trim();
-    if let Some(rest) = case.strip_prefix("R ") {
+    if let Some(rest) = case.strip_prefix("X ") {
+        match dec_str(rest.trim()) {
+            Some(text) => run_escape_case(case, &text),
+            None => emit(case, "bad-case", "-"),
+        }
+    } else if let Some(rest) = case.strip_prefix("R ") {
         match dec_str(rest.trim()) {
             Some(src) => run_raw(r, &src, true),
             None => emit(case, "bad-case", "-"),
@@ -2264,7 +2287,66 @@ fn random_probe(rng: &mut Rng) -> String {
     }
 }
 
+
+// ---------------------------------------------------------------------------------------------
+// the dollar-single-quote escape family: every escape kind with boundary values, 1-8 digits, both
+// hex cases, alone (`X` cases, model-compared) and nested in words / commands / here-documents (`R`)
+
+const U_VALUES: &[u32] = &[
+    0, 1, 0x7F, 0x80, 0xFF, 0x100, 0xD7FF, 0xD800, 0xD801, 0xDBFF, 0xDC00, 0xDFFE, 0xDFFF, 0xE000, 0xFFFD, 0xFFFE, 0xFFFF,
+    0x10000, 0x1F600, 0x10FFFF, 0x110000, 0x7FFFFFFF, 0x80000000, 0xFFFFFFFF, 0x27, 0x5C, 0x0A, 0x41,
+];
+
+fn escape_texts(thorough: bool) -> Vec<String> {
+    let mut v: Vec<String> = vec![];
+    for &val in U_VALUES {
+        for upper in [false, true] {
+            let hex = |w: usize| if upper { format!("{val:0w$X}") } else { format!("{val:0w$x}") };
+            // `\U`: up to eight digits are consumed; `\u`: up to four; `\x`: up to two
+            for w in 1..=8 {
+                if w == 8 || u64::from(val) < (1u64 << (4 * w)) {
+                    v.push(format!("\\U{}", hex(w)));
+                    if w <= 4 {
+                        v.push(format!("\\u{}", hex(w)));
+                    }
+                    if w <= 2 {
+                        v.push(format!("\\x{}", hex(w)));
+                    }
+                }
+            }
+            // more digits than the escape takes: the rest is literal text
+            v.push(format!("\\u{}", hex(6)));
+            v.push(format!("\\x{}", hex(3)));
+            v.push(format!("\\U{}0", hex(8)));
+        }
+    }
+    for n in [0u32, 1, 7, 8, 0o77, 0o100, 0o177, 0o200, 0o377, 0o400, 0o777] {
+        v.push(format!("\\{n:o}"));
+        v.push(format!("\\{n:03o}"));
+        v.push(format!("\\{n:o}8"));
+        v.push(format!("\\{n:04o}"));
+    }
+    for c in 0x20u8..0x7F {
+        v.push(format!("\\c{}", c as char));
+        if thorough || c % 3 == 0 {
+            v.push(format!("\\{}", c as char));
+        }
+    }
+    for s in ["\\c\\\\", "\\c\\", "\\c", "\\", "\\x", "\\u", "\\U", "\\xg", "\\ug", "\\Ug", "\\cé", "\\é", "\\\n", "\\c\n", "a", "é", "'", "", "\\8", "\\9", "\\E", "\\e"] {
+        v.push(s.to_string());
+    }
+    v
+}
+
+/// contexts in which a `$'…'` string can occur; `@` is the escape text
+const ESC_CONTEXTS: &[&str] = &[
+    "$'@'", "echo $'@'", "echo a$'x@y'b", "echo \"$'@'\"", "x=$'@'", "$'@'=1", "cat <<$'E@F'\nbody\nEOF\n", "cat <<EOF\n$'@'\nEOF\n",
+    "echo $(echo $'@')", "echo `echo $'@'`", "echo ${x:-$'@'}", "echo \"${x:-$'@'}\"", "echo ${x#$'@'}", "echo $(( $'@' ))",
+    "case $'@' in ($'@') ;; esac", "for i in $'@'; do :; done", "$'@'() { :; }", ">$'@'", "echo $'@' $'@'", "echo $'@",
+];
+
 const SOUP: &[&str] = &[
+    "$'\\U0000D800'", "$'\\Udfff'", "$'\\ud800'", "$'\\U00110000'", "$'\\UFFFFFFFF'", "\\U", "\\u", "D800", "dfff",
     "99999999999>", "2147483648<", "2147483647>", "esac)", "(esac)", "case x in esac", "{a}>", "{}<", "function f", "[[ a ]]", "select x", "namespace n", "!(", "a:", "export", "a=(", "x=~", ":~",
     "５", "٣", "²", "½", "Ⅷ", "ｘ", "＜", "＞", "＄", "｛", "；", "\u{2029}", "\u{1680}", "$５", "${５", "$((５", "2５>", "$é", "${é}", "é=1",
     " ", " ", "\n", "\t", ";", "&", "|", "(", ")", "<", ">", "{", "}", "$", "`", "\\", "'", "\"", "#", "~", "=", "!", "-", "*", "?", "[", "]", ":", "+", "%", "@", "0", "1", "2", "7", "a", "b", "c", "x", "u", "U", "n", "e", "E", "if", "then", "fi", "for", "in", "do", "done", "case", "esac", "while", "until", "elif", "else", "function", "[[", "]]", "select", "namespace", "$(", "${", "$((", "))", "$'", "<<", "<<-", "<<<", ">>", ">|", ">>|", "<&", ">&", "<>", "<(", ">(", ";;", ";&", ";|", ";;&", "&&", "||", "()", "\\\n", "\\c", "\\x", "\\u", "\\U", "\\0", "\\777", "EOF", "\u{a0}", "\u{2028}", "\u{3000}", "\u{85}", "\0", "\u{7f}", "\u{1b}", "é", "日", "😀", "\u{301}", "\u{feff}", "\u{10ffff}", "\r",
@@ -2484,6 +2566,30 @@ fn main() {
         let s = random_probe(&mut prng);
         if mine(&mut idx) {
             run_raw(&mut r, &s, true);
+        }
+    }
+    // 6. the escape family: every escape text alone (model-compared) and in every `$'…'` context
+    let texts = escape_texts(o.thorough());
+    for t in &texts {
+        // `EscapeUnit::from_str` runs with line continuations enabled, `$'…'` does not: a backslash-newline
+        // is only meaningful inside the quotes (covered by the contexts below)
+        if t.contains("\\\n") {
+            continue;
+        }
+        if mine(&mut idx) {
+            let case = format!("X {}", enc_str(t));
+            run_escape_case(&case, t);
+        }
+    }
+    for (ti, t) in texts.iter().enumerate() {
+        for (ci, ctx) in ESC_CONTEXTS.iter().enumerate() {
+            // quick: every text in a rotating third of the contexts; thorough: all
+            if !o.thorough() && (ti + ci) % 3 != 0 {
+                continue;
+            }
+            if mine(&mut idx) {
+                run_raw(&mut r, &ctx.replace('@', t), true);
+            }
         }
     }
     // 5. what the shell shows to the user: `typeset -fp` and the job table
